@@ -177,6 +177,12 @@ def run(tier, rep, only=None):
     rep.stubs = ["EndpointVisitor / ClientVisitor rendering methods, RenderContext, FileManager, pathlib.Path -> recording stubs"]
     rep.assumptions = ["the Protocol of a tag is emitted from the same operation list as its client (emit_endpoint_client_class), so only client vs mock routing can differ",
                        "signature-by-signature equality of the three renderings is NOT decided here"]
+    from props import c13sig
+
+    sp2 = c13sig.specs(tier)
+    if only:
+        sp2 = [s for s in sp2 if only in explore.build(s).name]
+    sp = sp + sp2
     res = explore.run_all(sp, log=lambda m: print("[c13]", m, flush=True))
     for spec in sp:
         ob = explore.build(spec)
@@ -185,6 +191,14 @@ def run(tier, rep, only=None):
 
 def replay(path):
     v = json.load(open(path))["violation"]
+    if v["obligation"].startswith("sig/"):
+        from props import c13sig
+
+        ob = c13sig.replay_ob(v)
+        r = ob.run_real(v["inputs"])
+        ok = bool(ob.prop(v["inputs"], r))
+        print("replay %s inputs=%r -> holds=%s%s" % (v["obligation"], v["inputs"], ok, "" if ok else " :: " + ob.describe_violation(v["inputs"], r)[:1500]))
+        return 0 if ok else 1
     parts = v["obligation"].split("/")
     shape = tuple(int(x) for x in parts[1].split("=")[1].split("+"))
     lens = [len(v["inputs"][k]) for k in sorted(v["inputs"])]
